@@ -14,6 +14,9 @@ package pbuffer
 //@   modifies ghost pooltyp
 //@   ensures capacity: result != nil && bufcap(result) >= c
 //@   ensures once: nemitted() <= 1
+// exclusivity rests on where the result comes from: it is what the sharded pool handed out (sync.Pool
+// gives an item to one caller only) or newly allocated memory - never something obtained elsewhere
+//@   ensures origin: implies(called("Get"), implies(callres("Get", 0) != nil, result == callres("Get", 0)) && implies(callres("Get", 0) == nil, fresh(result))) && implies(notcalled("Get"), fresh(result))
 
 //@ func (*Pool).Put
 //@   params p bts
